@@ -43,6 +43,17 @@ def compile_cmd(cfg, out_dir, src, exe=None, syntax_only=False, opt="-O0", extra
     return cmd
 
 
+def run_compile(cmd, attempts=3):
+    """run a compiler; a failure is believed only if it repeats (compiler crashes / I/O hiccups under heavy load are
+    environmental and must not become verdicts)"""
+    r = None
+    for _ in range(attempts):
+        r = common.run(cmd)
+        if r.returncode == 0:
+            return r
+    return r
+
+
 def first_errors(out, n=6):
     lines = [l for l in out.splitlines() if "error" in l or "Error" in l]
     return [l[:400] for l in lines[:n]] or [out[-600:]]
@@ -78,7 +89,7 @@ def build_entry(sch, edir, configs, header_configs, sbeppc):
             tu = os.path.join(edir, "hdr_tu.cpp")
             with open(tu, "w") as f:
                 f.write('#include "%s"\nint main() { return 0; }\n' % h)
-            r = common.run(compile_cmd(cfg, out_dir, tu, syntax_only=True))
+            r = run_compile(compile_cmd(cfg, out_dir, tu, syntax_only=True))
             st["headers_checked"] += 1
             if r.returncode != 0:
                 st["errors"] = first_errors(r.stdout.decode(errors="replace"))
@@ -91,7 +102,7 @@ def build_entry(sch, edir, configs, header_configs, sbeppc):
     st["stage"] = "driver"
     for cfg in configs:
         exe = os.path.join(edir, "driver-" + cfg_name(cfg))
-        r = common.run(compile_cmd(cfg, out_dir, src, exe))
+        r = run_compile(compile_cmd(cfg, out_dir, src, exe))
         if r.returncode != 0:
             st["errors"] = first_errors(r.stdout.decode(errors="replace"))
             st["signature"] = "touch-everything-tu-does-not-compile"
